@@ -74,7 +74,7 @@ pub fn check_step(pre: &Pre, e: Ev, rep: &StepReport, sim: &Sim) -> Vec<Viol> {
     if let Some(p) = &sim.panicked {
         // whatever property is being explored: after a panic in a pool task the histories that
         // follow are not the library's behaviour any more
-        for prop in ["C02", "C03", "C04", "C05", "C06", "C14", "C15"] {
+        for prop in ["C01", "C02", "C03", "C04", "C05", "C06", "C14", "C15"] {
             out.push(v(prop, "panic", format!("panic inside the pool: {p}")));
         }
     }
@@ -160,6 +160,14 @@ pub fn check_step(pre: &Pre, e: Ev, rep: &StepReport, sim: &Sim) -> Vec<Viol> {
             }
             if matches!(e, Ev::Cancel(_)) {
                 out.push(v("C04", "cancel-dials", format!("cancelling a request started dial d{di}")));
+            }
+        }
+        // ---- C01 (pool level): a request that was not cancelled fails only if something broke. In a history
+        //      without a failed dial or handshake, a peer close, an upgrade or a cancellation, no request may
+        //      resolve with an error.
+        if let (Ev::Poll(r), Some(res)) = (e, rep.poll_result.as_deref()) {
+            if res.starts_with("err(") && !sim.history.iter().any(|h| matches!(h, Ev::DialFail(_) | Ev::HsFail(_) | Ev::ConnClose(_) | Ev::Upgrade(_) | Ev::Cancel(_))) {
+                out.push(v("C01", "spurious-failure", format!("r{r} resolved with {res} although no connection attempt failed, no peer closed a connection and nothing was cancelled")));
             }
         }
         // ---- C14 (1): served by the released connection no later than the next poll
